@@ -40,8 +40,9 @@ using std::endl;
 using std::ostringstream;
 using std::stringstream;
 
-static const std::string prefix_labels[] = {"", "const ", "urgent ", "", "broadcast ", "", "urgent broadcast ",
-                                            "", "meta "};
+// indexed by ParserBuilder::PREFIX, whose largest value is PREFIX_HYBRID = 16
+static const std::string prefix_labels[] = {"", "const ", "urgent ", "", "broadcast ", "", "urgent broadcast ", "", "meta ",
+                                            "", "",       "",        "", "",           "", "",                  "hybrid "};
 
 void PrettyPrinter::indent()
 {
